@@ -2,7 +2,7 @@ from planlib import desc_fuzz
 KERNS = ["q120_vec_mat1col_product_baa", "q120_vec_mat1col_product_bbb", "q120_vec_mat1col_product_bbc",
          "q120x2_vec_mat1col_product_bbc", "q120x2_vec_mat2cols_product_bbc"]
 ELLC = ["ell:0", "ell:1", "ell:2", "ell:9999", "ell:10000", "ell:1000..9998", "ell:3..999", "ell:8000..10000"]
-OPFAM = ["all-maximal", "max-x-topbit-y", "max/min-alternating", "single-maximal", "topbit-random", "near-max-distinct", "max-x-proper-c", "per-lane zero/maximal mix"]
+OPFAM = ["all-maximal", "max-x-topbit-y", "max/min-alternating", "single-maximal", "topbit-random", "near-max-distinct", "max-x-proper-c", "per-lane zero/maximal mix", "accumulators on a 32-bit carry boundary"]
 FAMS = ["all-ones", "zero", "alternating", "cq-1", "cq", "single", "uniform64", "canonical", "topbit", "mixed-extremal"]
 ELL_COUNT = {0: 6000, 1: 6000, 2: 6000, 3: 2100, 4: 2100, 5: 2100, 6: 9000, 7: 2100}
 KCOUNT = {0: 30000, 1: 30000, 2: 30000, 3: 30000, 4: 30000, 5: 30000, 6: 30000, 7: 30000, 8: 24000, 9: 15000, 10: 9000, 11: 4800,
